@@ -186,3 +186,25 @@ def sany(module):
     bad = p.returncode != 0 or "Could not" in p.stdout or "*** Errors" in p.stdout or "Fatal" in p.stdout \
         or "Exception" in p.stdout
     return (not bad), p.stdout
+
+
+def apalache_lemmas(outdir, timeout=300):
+    """Discharge spec/ArithLemmas.tla with Apalache over unbounded integers.  Returns (status, wall seconds) with status
+    'proved' | 'counterexample' | 'not discharged' (solver stalled or tool missing: reported, never a failure)."""
+    import shutil
+    exe = shutil.which("apalache-mc")
+    if exe is None:
+        return "not discharged", 0.0
+    t0 = time.time()
+    try:
+        p = subprocess.run([exe, "check", "--init=Init", "--next=Next", "--inv=Lemmas", "--length=0",
+                            "--out-dir=" + os.path.join(outdir, "apalache"), "ArithLemmas.tla"], cwd=SPEC_DIR,
+                           stdout=subprocess.PIPE, stderr=subprocess.STDOUT, universal_newlines=True, timeout=timeout)
+    except subprocess.TimeoutExpired:
+        return "not discharged", time.time() - t0
+    out = p.stdout
+    if "The outcome is: NoError" in out:
+        return "proved", time.time() - t0
+    if "The outcome is: Error" in out:
+        return "counterexample", time.time() - t0
+    return "not discharged", time.time() - t0
